@@ -249,7 +249,7 @@ def run(tier, replay=None):
         if not isinstance(impl, str):
             sums.setdefault(i, [0.0, case])[0] += impl
     for i, (tot, case) in sums.items():
-        if abs(tot - 1.0) > 1e-9:
+        if not (abs(tot - 1.0) <= 1e-9):     # a NaN total is a failure too
             chk.violation("gamete probabilities do not sum to one over all gametes", {**case, "sum": tot}, "C17/gamete/sum")
 
     # ------------------------------------------------------------------ trio pmf, validity
@@ -380,7 +380,7 @@ def run(tier, replay=None):
                 chk.violation("with zero parent error the inheritance probability is positive but the validity test fails, or vice versa",
                               {**case, "valid": bool(valid)}, "C17/valid/positive-iff")
     for i, (tot, case) in totals.items():
-        if abs(tot - 1.0) > 1e-9:
+        if not (abs(tot - 1.0) <= 1e-9):     # a NaN total is a failure too
             chk.violation("trio probabilities do not sum to one over all unordered progeny genotypes", {**case, "sum": tot}, "C17/trio/sum")
     chk.extra["sum_to_one_groups"] = len(totals)
 
